@@ -15,7 +15,8 @@ ASSUMPTIONS = [
     "and on every reported violation",
 ]
 SPEC = {
-    'quick': [('K0p', 'small', 3),
+    'quick': [('K20', 'std', 3),
+              ('K0p', 'small', 3),
               ('K1', 'ar', 7),
               ('K0', 'std', 3),
               ('K0', 'liq', 4),
